@@ -192,3 +192,11 @@ package config
 //@   ensures#tree Ghost()
 //@   ensures#siblings old(sep(src.Anchors, src.TemplateData, dest)) ==> (forall m map[string]any :: old(allocated(m)) && depth(m) <= 0 && m != old(dest.TemplateData) && m != old(dest.Anchors) ==> unchanged(m))
 //@   assigns *dest, maps(map[string]any), fresh
+
+// ---- defaults and load order (C18, C08) ---------------------------------------------------
+// The defaults come from exactly one provider (the struct of documented defaults); nothing from the
+// environment, a file or flags is mixed into them.
+//@ func NewDefaultKoanf props=C18,C08
+//@   returns#onlydefaults err == nil ==> called("github.com/knadh/koanf/providers/structs.Provider") == 1 && called("Load") == 1
+//@   returns#noothers called("github.com/knadh/koanf/providers/env.ProviderWithValue") == 0 && called("github.com/knadh/koanf/providers/env.Provider") == 0
+//@        && called("github.com/knadh/koanf/providers/file.Provider") == 0 && called("github.com/knadh/koanf/providers/posflag.Provider") == 0
